@@ -107,8 +107,11 @@ def structural_mutants(rng, name, doc, limit):
             parent = get(d, path[:-1])
             parent.append(copy.deepcopy(parent[path[-1]]))
             out.append(("%s: duplicate %s" % (name, "/".join(map(str, path))), d, "duplicate"))
-    rng.shuffle(out)
-    return out[:limit]
+    # the small top-level sections that are only used when the proxy really runs are always mutated completely; the rest is sampled
+    always = [m for m in out if any((": %s/" % sec) in m[0] or (": delete %s" % sec) in m[0] for sec in ("metrics", "accessLog", "timeouts", "ioParams"))]
+    rest = [m for m in out if m not in always]
+    rng.shuffle(rest)
+    return always + rest[:limit]
 
 
 def targeted_mutants(doc_small, doc_shipped):
